@@ -32,6 +32,10 @@ CLAIMS = {
     text='Lean 4 theorem admit_iff (handler runs iff the Authorization value is "Basic " + canonical base64 of user:password of a configured pair) with the base64 round trip and canonicity proved; differential run of an application guarded by the real fang (single and array forms) against the model and against Python base64',
     note=TB + 'modelled not verified: base64 0.22 STANDARD engine (hand model, canonical decoding; validated against Python base64 and the crate), from_utf8',
     technique='Lean 4 proof (iff via base64 canonicity) + model/implementation correspondence'),
+ 'C14': dict(
+    text='Lean 4 theorems over the model of the CORS fang and the automatic OPTIONS handler (acao_everywhere, credentials_iff incl. the wildcard rule of the builder, expose_headers, preflight_iff: 200 without body iff the requested method is among the registered methods + HEAD with GET + OPTIONS, advertising exactly that list, max-age and configured-or-echoed headers; otherwise 400; options_without_method); differential run of application trees under the real fang (routes registered by several items, nested mounts) against the model on top of the router model, and against the header matrix computed independently from the policy and the flat route table',
+    note=TB + 'the union of methods per route in the OPTIONS tree is part of the driver-level model (validated by correspondence), not of a theorem',
+    technique='Lean 4 proof (decision logic of bite/default_options) + model/implementation correspondence'),
  'C17': dict(
     text='Lean 4 theorem stream_delivers_all (for every completing producer schedule the stream yields exactly all pushes in order: none lost when the producer completes with a non-empty queue, none duplicated) plus framing lemmas (zero-chunk termination, no empty data chunk, no CR survives normalisation); differential run of a real DataStream handler driven by scripted schedules against the model, and of the wire bytes against an RFC 9112 de-chunker and the WHATWG event-stream parser',
     note=TB + 'modelled not verified: the executor and wakers (one poll = one schedule step), the self-referential queue pointer; the end-to-end statement wire_decodes (parser after de-chunker = messages) is checked by the independent parser on every run, its Lean proof is in progress',
